@@ -237,6 +237,12 @@ def provoked():
     cases.append(('deduplicate: primary key field missing from a row', lambda root: [list(data), DF.set_primary_key(['a']), _drop_key('a'), DF.deduplicate()], {'KeyError'}))
     cases.append(('find_replace on a missing field', lambda root: [list(data), DF.find_replace([dict(name='nope', patterns=[dict(find='x', replace='y')])])], {'KeyError'}))
     cases.append(('stream meets a value it cannot encode', lambda root: [[dict(a=1, o=object())], DF.stream(_mkd(os.path.join(root, 'st')) + '/x.ndjson')], {'TypeError'}))
+    cases.append(('a failing row in a resource that a later step deletes', lambda root: [dying_source(150, 120), list(data), DF.delete_resource(0)], {'RuntimeError'}))
+    cases.append(('a step inside a nested Flow raises', lambda root: [list(data), DF.Flow(DF.add_field('z', 'integer', 1), DF.Flow(_raise_at(2)))], {'ZeroDivisionError'}))
+    cases.append(('a step inside an always-true conditional raises', lambda root: [list(data), DF.conditional(lambda dp: True, DF.Flow(_raise_at(2)))], {'ZeroDivisionError'}))
+    cases.append(('a source inside sources() dies after the sample', lambda root: [list(data), DF.sources(dying_source(150, 120))], {'RuntimeError'}))
+    cases.append(('the predicate of conditional raises', lambda root: [list(data), DF.conditional(lambda dp: 1 / 0, DF.Flow(DF.add_field('z', 'integer', 1)))], {'ZeroDivisionError'}))
+    cases.append(('a finalizer callback raises', lambda root: [list(data), DF.finalizer(lambda: 1 / 0)], {'ZeroDivisionError'}))
     return cases
 
 
